@@ -351,6 +351,25 @@ fn body_sched(fixtures: Vec<usize>, mode: SchedMode) -> impl Fn(&Ch) -> Run + Sy
     if r0.is_err() {
       run.violate("fault-free-build-did-not-finish", "deadlock without faults", case(json!({})));
     }
+    // registry bookkeeping survives whatever the build went through (a
+    // cache-busting restart in particular): every `jsr:` specifier that has a
+    // redirect into the registry has its requirement in the package table,
+    // mapped to the version the redirect names
+    for (k, v) in g0.redirects.iter().filter(|(k, _)| k.scheme() == "jsr") {
+      let Ok(req_ref) = deno_semver::jsr::JsrPackageReqReference::from_specifier(k) else { continue };
+      let mapped = g0.packages.mappings().get(req_ref.req()).map(|nv| nv.to_string());
+      let in_url = mapped.as_ref().is_some_and(|nv| {
+        let (name, version) = nv.rsplit_once('@').unwrap_or((nv.as_str(), ""));
+        v.as_str().starts_with(&format!("https://jsr.io/{name}/{version}/"))
+      });
+      if !in_url {
+        run.violate(
+          "jsr-redirect-without-matching-package-mapping",
+          format!("{k} redirects to {v}; the package table maps its requirement to {mapped:?}"),
+          case(json!({})),
+        );
+      }
+    }
     // a package file that imports JSON statically and without attribute: an
     // error entry, whatever dynamic branches the build has queued by the time
     // the package's files are visited (absolute expectation: the comparison
